@@ -152,6 +152,9 @@ class PredicatedM(SentM):
     def sym_getattr(self, it, name):
         if name == 'predicate': return self.pred
         if name == 'params': return tuple(self.params)
+        from pyvc.interp import private_helper
+        ok, v = private_helper(it, self.cls, name, self)
+        if ok: return v
         raise Outside(f'Predicated.{name}')
     def sym_iter(self, it): return list(self.params)       # Sequence mixin over __getitem__/__len__ = params
     def sym_len(self, it): return len(self.params)          # Predicated.__len__ = len(self.params)
@@ -169,6 +172,9 @@ class QuantifiedM(SentM):
         if name == 'variable': return self.v
         if name == 'sentence': return self.s
         if name == 'unquantify': return self.method(it, name)[0]
+        from pyvc.interp import private_helper
+        ok, v = private_helper(it, self.cls, name, self)
+        if ok: return v
         raise Outside(f'Quantified.{name}')
 
 class OperatedM(SentM):
